@@ -815,7 +815,7 @@ pub fn gen_cs_op(src: &mut Src, cfg: &GenCfg, depth: u32) -> CsOp {
 
 fn cs_may_contain_strings(cs: &Cs) -> bool {
     let op_strings = |op: &CsOp| match op {
-        CsOp::Q(strs) => strs.iter().any(|s| s.len() != 1),
+        CsOp::Q(strs) => strs.is_empty() || strs.iter().any(|s| s.len() != 1),
         CsOp::Nested(c) => !c.neg && cs_may_contain_strings(c),
         _ => false,
     };
